@@ -254,3 +254,204 @@ Proof.
   intros q ps fvals. unfold filter_values. generalize (q_filters q). intros l H.
   induction H as [|f y l fvals Hf Hrest IH]; simpl. reflexivity. rewrite Hf, IH. reflexivity.
 Qed.
+
+(* ---------- the T1 theorem ---------- *)
+Lemma cls_nil1 : forall b k, cls b k = [] -> b = false.
+Proof. intros [|] k H; simpl in H. discriminate. reflexivity. Qed.
+
+Lemma Forall2_weaken : forall A B (P Q : A -> B -> Prop) l1 l2, (forall a b, P a b -> Q a b) -> Forall2 P l1 l2 -> Forall2 Q l1 l2.
+Proof. intros A B P Q l1 l2 H F. induction F; constructor; auto. Qed.
+
+Lemma Forall2_In_r : forall A B (P : A -> B -> Prop) l1 l2 y, Forall2 P l1 l2 -> In y l2 -> exists x, In x l1 /\ P x y.
+Proof.
+  intros A B P l1 l2 y F. induction F as [|a b l1 l2 Hab Hrest IH]; intros Hin. contradiction.
+  destruct Hin as [<-|Hin]. exists a. split. left. reflexivity. exact Hab.
+  destruct (IH Hin) as (x & Hx & Hp). exists x. split. right. exact Hx. exact Hp.
+Qed.
+
+Lemma compile_disjs_nonempty' : forall before vo done todo vo' ds,
+  compile_disjs before vo done todo = (vo', ds) -> todo <> [] -> ds <> [].
+Proof. intros before vo done todo vo' ds H Hn. destruct todo as [|ko t]. congruence. eapply compile_disjs_nonempty; eauto. Qed.
+
+Theorem T1_outside_known : forall m rows q ps,
+  wf_query m q = true -> params_ok q ps = true -> known_query m rows q ps = [] ->
+  answer_ok (eval m rows q ps) (run_query m rows q ps) = true.
+Proof.
+  intros m rows q ps Hwf Hpo Hk.
+  unfold known_query in Hk.
+  apply cls_nil in Hk. destruct Hk as [K1 Hk]. apply cls_nil in Hk. destruct Hk as [K2 Hk].
+  apply cls_nil in Hk. destruct Hk as [K3 Hk]. apply cls_nil in Hk. destruct Hk as [K4 Hk].
+  apply cls_nil in Hk. destruct Hk as [K5 Hk]. apply cls_nil in Hk. destruct Hk as [K6 Hk].
+  apply cls_nil in Hk. destruct Hk as [K7 K8]. apply cls_nil1 in K8.
+  unfold wf_query in Hwf. apply andb_prop in Hwf. destruct Hwf as [Hwf W4]. apply andb_prop in Hwf. destruct Hwf as [Hwf W3].
+  apply andb_prop in Hwf. destruct Hwf as [W1 W2].
+  unfold params_ok in Hpo. apply andb_prop in Hpo. destruct Hpo as [Hpo P4]. apply andb_prop in Hpo. destruct Hpo as [Hpo P3].
+  apply andb_prop in Hpo. destruct Hpo as [P1 P2].
+  rewrite forallb_forall in W1, W2, W3, P1, P4.
+  unfold run_query. destruct (compile m q) as [vf s] eqn:Ec.
+  pose proof Ec as Ec'. unfold compile in Ec'.
+  destruct (compile_sel m [] (q_sel q)) as [vo1 sel] eqn:E1.
+  destruct (compile_filters m q vo1 (q_filters q)) as [vo2 fs] eqn:E2.
+  destruct (compile_disjs (is_before (q_paging q)) vo2 [] (combine (q_order q) (paging_values (q_paging q)))) as [vo3 pg] eqn:E3.
+  destruct (compile_limit vo3 q) as [[vo4 lim] off] eqn:E4.
+  injection Ec' as Evf Es. subst vo4.
+  assert (Ssel : st_sel s = sel) by (rewrite <- Es; reflexivity).
+  assert (Sfs : st_filters s = fs) by (rewrite <- Es; reflexivity).
+  assert (Spg : st_paging s = pg) by (rewrite <- Es; reflexivity).
+  assert (Sord : st_order s = map (fun k : okey => (ref_sx (ok_ref k), ok_dir k)) (q_order q)) by (rewrite <- Es; reflexivity).
+  assert (Slim : st_limit s = lim) by (rewrite <- Es; reflexivity).
+  assert (Soff : st_offset s = off) by (rewrite <- Es; reflexivity).
+  clear Es.
+  destruct (compile_sel_sem _ _ _ _ _ E1) as [Hp1 C1].
+  destruct (compile_filters_shape _ _ _ _ _ _ E2) as [Hp2 C2].
+  destruct (compile_disjs_sem _ _ _ _ _ _ E3) as [Hp3 C3].
+  destruct (compile_limit_sem _ _ _ _ _ E4) as [Hp4 C4].
+  assert (Hpf3 : pfx vo3 vf) by exact Hp4.
+  assert (Hpf2 : pfx vo2 vf) by (eapply pfx_trans; eauto).
+  assert (Hpf1 : pfx vo1 vf) by (eapply pfx_trans; eauto).
+  (* binding succeeds *)
+  assert (Hent : entries_ok (fun n => In n (query_vars q)) vf).
+  { eapply compile_limit_entries. exact E4. 2: apply vars_first. 2: apply vars_skip.
+    eapply compile_disjs_entries. exact E3.
+    2: { intros ko n Hin Hn. simpl in Hin. eapply vars_paging. eapply in_combine_snd. exact Hin. exact Hn. }
+    eapply compile_filters_entries. exact E2. 2: apply vars_filter.
+    eapply compile_sel_entries. exact E1. intros p []. }
+  destruct (bind_total ps vf) as [binds Hb].
+  { intros p Hin Hf. specialize (P1 _ (Hent p Hin Hf)). destruct (lookup (snd p) ps); congruence. }
+  rewrite Hb.
+  (* no variable is captured by a literal *)
+  assert (Hvok : forall n, In n (query_vars q) -> var_ok vf n).
+  { intros n Hn p Hfm. destruct (fst p) eqn:E; [exfalso | reflexivity].
+    unfold k_collision in K5. rewrite Ec in K5. cbn [fst] in K5.
+    assert (Hex : existsb (fun n0 => match find (fun p0 : pentry => str_eqb n0 (snd p0)) vf with Some p0 => fst p0 | None => false end) (query_vars q) = true).
+    { apply existsb_exists. exists n. split. exact Hn. unfold fm in Hfm. rewrite Hfm. exact E. }
+    congruence. }
+  (* the reference side *)
+  destruct (all_some_Forall2 _ _ (fun f => operand_value ps (fl_val f)) (q_filters q)) as (fvals & Hfv & Hfv2).
+  { intros f Hin. destruct (fl_val f) as [v|n] eqn:Ev; simpl. discriminate.
+    specialize (P1 n (vars_filter q f n Hin Ev)). destruct (lookup n ps); congruence. }
+  destruct (all_some_Forall2 _ _ (operand_value ps) (paging_values (q_paging q))) as (cur & Hcur & Hcur2).
+  { intros o Hin. destruct o as [v|n]; simpl. discriminate.
+    specialize (P1 n (vars_paging q (OVar n) n Hin eq_refl)). destruct (lookup n ps); congruence. }
+  unfold eval. rewrite Hfv, Hcur.
+  destruct (option_map as_int (operand_value ps (q_first q))) as [[n|]|] eqn:Ef; try discriminate.
+  set (sk := match q_skip q with None => Some (Some 0) | Some o => option_map as_int (operand_value ps o) end).
+  assert (Hsk : exists k, sk = Some (Some k)).
+  { subst sk. destruct (q_skip q) as [o|]. destruct (option_map as_int (operand_value ps o)) as [[k|]|]; try discriminate. exists k. reflexivity. exists 0. reflexivity. }
+  destruct Hsk as [k Hsk]. rewrite Hsk.
+  (* the statement is well-formed *)
+  destruct (C4 vf ps binds n k (pfx_refl _) Hb (fun nm H => Hvok nm (vars_first q nm H)) (fun nm H => Hvok nm (vars_skip q nm H)) Ef Hsk K7 K4)
+    as (ln & lk & Hln & Hlk & Hlim & Hoff & Hmal).
+  pose proof (C1 vf ps binds Hpf1 Hb) as HC1. rewrite <- Ssel in HC1.
+  pose proof (C2 vf ps binds Hpf2 Hb (fun f nm Hin Hv => Hvok nm (vars_filter q f nm Hin Hv))) as HC2.
+  assert (Hnm : stmt_malformed s = false).
+  { unfold stmt_malformed. rewrite Sfs, Slim, Soff, Hmal, orb_false_r.
+    eapply filters_not_malformed with (m := m) (q := q) (fs := q_filters q).
+    - eapply Forall2_weaken; [|exact HC2]. intros f sf (xv & Hx & _). exists xv. split. exact Hx. exact I.
+    - intros f Hin. unfold k_spliced in K8.
+      destruct (match filter_default m q f with Some (VStr s0) => has_quote s0 | _ => false end) eqn:E; [|reflexivity].
+      exfalso. assert (Hex : existsb (fun f0 => match ref_field q (fl_ref f0) with
+                                              | Some i => match default_of m i with Some (VStr s0) => has_quote s0 | _ => false end
+                                              | None => false end) (q_filters q) = true).
+      { apply existsb_exists. exists f. split. exact Hin. unfold filter_default in E. destruct (ref_field q (fl_ref f)); [exact E | discriminate]. }
+      congruence. }
+  rewrite (run_sql_unfold rows s binds ln lk Hnm); try (rewrite ?Slim, ?Soff; assumption).
+  rewrite Hlim, Hoff, ssort_isort.
+  assert (Hwhere : forall r, In r rows ->
+     is_true (where_eval binds r (json_object binds s r) s) =
+     (forallb (fun fv : qfilter * val => holds (fl_op (fst fv)) (ref_value m q r (fl_ref (fst fv))) (snd fv)) (combine (q_filters q) fvals)
+      && match q_paging q with
+         | PNone => true
+         | PAfter _ => match lex_cmp (dirs q) (row_keys m q r) cur with Gt => true | _ => false end
+         | PBefore _ => match lex_cmp (dirs q) (row_keys m q r) cur with Lt => true | _ => false end
+         end)).
+  { intros r Hr.
+    assert (Hfl : forallb (fun sf => is_true (filter_eval binds r (json_object binds s r) sf)) fs =
+                  forallb (fun fv : qfilter * val => holds (fl_op (fst fv)) (ref_value m q r (fl_ref (fst fv))) (snd fv)) (combine (q_filters q) fvals)).
+    { eapply filters_sem. exact HC2. exact Hfv2.
+      - intros k0. apply (alias_canon m q rows binds s HC1 K3 K2 r k0 Hr).
+      - intros f Hin Hl. specialize (W1 f Hin). rewrite Hl in W1. destruct (filter_default m q f); [discriminate | reflexivity].
+      - intros f d Hin Hd Hdn. subst d. unfold filter_default in Hd. destruct (ref_field q (fl_ref f)) as [i|]; try discriminate.
+        destruct (default_of_In m i VNull Hd) as (fd & Hfd & Hdd). specialize (W2 fd Hfd). rewrite Hdd in W2. discriminate.
+      - intros f nm Hin Hop Hv Hl. unfold k_nullvar in K6.
+        assert (Hex : existsb (fun f0 => match fl_op f0, fl_val f0 with
+                                        | (OEq | ONe), OVar n0 => match lookup n0 ps with Some VNull => true | _ => false end
+                                        | _, _ => false end) (q_filters q) = true).
+        { apply existsb_exists. exists f. split. exact Hin. rewrite Hv, Hl. destruct Hop as [-> | ->]; reflexivity. }
+        congruence. }
+    unfold where_eval. rewrite Sfs, Spg.
+    assert (Hpaged : forall (before : bool) vs, q_paging q = (if before then PBefore vs else PAfter vs) ->
+              is_true (match pg with [] => fold_right (fun f acc => tv_and (filter_eval binds r (json_object binds s r) f) acc) (Some true) fs
+                       | _ => tv_and (fold_right (fun f acc => tv_and (filter_eval binds r (json_object binds s r) f) acc) (Some true) fs)
+                                     (fold_right (fun d acc => tv_or (disj_eval binds r (json_object binds s r) d) acc) (Some false) pg) end)
+              = (forallb (fun fv : qfilter * val => holds (fl_op (fst fv)) (ref_value m q r (fl_ref (fst fv))) (snd fv)) (combine (q_filters q) fvals)
+                 && match lex_cmp (dirs q) (row_keys m q r) cur with Gt => negb before | Lt => before | Eq => false end)).
+    { intros before vs Ep.
+      assert (Epv : paging_values (q_paging q) = vs) by (rewrite Ep; destruct before; reflexivity).
+      assert (Epb : is_before (q_paging q) = before) by (rewrite Ep; destruct before; reflexivity).
+      rewrite Epv, Epb in E3. rewrite Epv in Hcur2, W3, P4.
+      assert (W4' : negb (Nat.eqb (List.length vs) 0) && Nat.leb (List.length vs) (List.length (q_order q)) = true).
+      { rewrite Ep in W4. destruct before; exact W4. }
+      apply andb_prop in W4'. destruct W4' as [W4a W4b]. apply Nat.leb_le in W4b.
+      assert (W4c : List.length vs <> 0%nat). { intros Hc. rewrite Hc in W4a. discriminate. }
+      rewrite Epv, Epb in C3.
+      assert (Hcne : combine (q_order q) vs <> []).
+      { intros Hc. pose proof (combine_length (q_order q) vs) as Hcl. rewrite Hc in Hcl. simpl in Hcl. lia. }
+      pose proof (compile_disjs_nonempty' _ _ _ _ _ _ E3 Hcne) as Hne.
+      destruct pg as [|d0 pg']; [congruence|].
+      rewrite is_true_and, filters_fold, Hfl.
+      destruct (forallb (fun fv : qfilter * val => holds (fl_op (fst fv)) (ref_value m q r (fl_ref (fst fv))) (snd fv)) (combine (q_filters q) fvals)) eqn:Hpass; [|reflexivity].
+      cbn [andb].
+      assert (HF2 : Forall2 (fun (ko0 : okey * operand) c => operand_value ps (snd ko0) = Some c) (combine (q_order q) vs) cur).
+      { apply (Forall2_combine_order (fun o c => operand_value ps o = Some c)). exact Hcur2. exact W4b. }
+      rewrite (C3 vf ps binds Hpf3 Hb) with (kval := kval m q r) (cd := []) (ct := cur).
+      2: { intros ko0 nm Hin Hn. simpl in Hin. apply Hvok. eapply vars_paging. rewrite Epv. eapply in_combine_snd. exact Hin. exact Hn. }
+      2: { intros k0. apply (kval_canon m q rows binds s HC1 K3 K2 r k0 Hr). }
+      2: constructor.
+      2: exact HF2.
+      cbn [trip combine map forallb andb].
+      rewrite (trip_zip _ _ _ _ _ HF2), (kvals_keys m q rows K2 r Hr). fold (dirs q).
+      rewrite vlex_lexz, <- lex_cmp_zip. reflexivity.
+      intros d kv c Hin. apply In_combine3_firstn in Hin. destruct Hin as [Hk Hc]. split.
+      - (* keys of a row that passes the filters are not null outside class 1 *)
+        assert (Hk1 : k_paging (List.length vs) m rows q ps = false).
+        { rewrite Ep in K1. destruct before; cbn [paging_values] in K1; exact K1. }
+        unfold k_paging in Hk1.
+        assert (Hlen : List.length cur = List.length vs) by (symmetry; eapply Forall2_length'; eauto).
+        rewrite Hlen in Hk. intros Hn. subst kv.
+        assert (Hex : existsb (existsb is_null) (map (firstn (List.length vs)) (matching_keys m rows q ps)) = true).
+        { apply existsb_exists. exists (firstn (List.length vs) (row_keys m q r)). split.
+          - apply in_map. unfold matching_keys. apply in_map. unfold matching. apply filter_In. split. exact Hr.
+            rewrite (filter_values_eq q ps fvals Hfv2). cbn [q_filters q_paging no_paging]. rewrite andb_true_r.
+            rewrite forallb_forall in Hpass |- *. intros fv Hfvin. rewrite ref_value_no_paging. apply Hpass. exact Hfvin.
+          - apply existsb_exists. exists VNull. split. exact Hk. reflexivity. }
+        congruence.
+      - destruct (Forall2_In_r _ _ _ _ _ _ Hcur2 Hc) as (o & Ho & Hov). specialize (P4 o Ho). rewrite Hov in P4.
+        intros Hn. subst c. discriminate. }
+    destruct (q_paging q) as [|vs|vs] eqn:Ep.
+    - cbn [paging_values is_before] in E3. rewrite combine_nil in E3. cbn in E3. injection E3 as _ <-.
+      rewrite filters_fold, Hfl, andb_true_r. reflexivity.
+    - pose proof (Hpaged false vs eq_refl) as HP. cbn [negb] in HP.
+      transitivity (forallb (fun fv : qfilter * val => holds (fl_op (fst fv)) (ref_value m q r (fl_ref (fst fv))) (snd fv)) (combine (q_filters q) fvals)
+                    && match lex_cmp (dirs q) (row_keys m q r) cur with Gt => true | Lt => false | Eq => false end).
+      + rewrite <- HP. destruct pg; reflexivity.
+      + destruct (lex_cmp (dirs q) (row_keys m q r) cur); reflexivity.
+    - pose proof (Hpaged true vs eq_refl) as HP. cbn [negb] in HP.
+      transitivity (forallb (fun fv : qfilter * val => holds (fl_op (fst fv)) (ref_value m q r (fl_ref (fst fv))) (snd fv)) (combine (q_filters q) fvals)
+                    && match lex_cmp (dirs q) (row_keys m q r) cur with Gt => false | Lt => true | Eq => false end).
+      + rewrite <- HP. destruct pg; reflexivity.
+      + destruct (lex_cmp (dirs q) (row_keys m q r) cur); reflexivity. }
+  assert (Hfilt : filter (fun r => is_true (where_eval binds r (json_object binds s r) s)) rows = matching m q fvals cur rows).
+  { unfold matching. apply filter_ext_in. exact Hwhere. }
+  rewrite Hfilt.
+  assert (Hsort : isort (srow_cmp binds s) (matching m q fvals cur rows) = ordered m q (matching m q fvals cur rows)).
+  { unfold ordered. apply isort_ext_in. intros a b Ha Hb'.
+    apply (order_cmp_lex m q rows binds s HC1 Sord K3 K2); unfold matching in *; [apply filter_In in Ha | apply filter_In in Hb']; tauto. }
+  rewrite Hsort.
+  unfold answer_ok. apply result_eqv_map. intros r Hr.
+  apply In_take_first, In_drop_skip in Hr. unfold ordered in Hr.
+  assert (Hrr : In r rows).
+  { eapply Permutation_in in Hr; [|apply Permutation_sym; apply isort_perm]. unfold matching in Hr. apply filter_In in Hr. tauto. }
+  unfold project, json_object. apply project_eqv. exact HC1.
+  intros sf b Hin Hd. eapply bool_rows; eauto.
+Qed.
